@@ -188,11 +188,7 @@ def offset_rule(ctx, fm, R="C05.O"):
     if data[0] != "format":
         ctx.fail(R, "vectorise_mmap:row_term", "row data `%s` is not a formatted row" % show(data), line_of(w))
         return
-    hdr = [b for lid, b in fm.binds.items() if b["name"] == "header" and b["mut"]]
-    header_t = None
-    for lid, b in fm.binds.items():
-        if b["name"] == "header" and b["mut"]:
-            header_t = ("local", "header", lid)
+    header_t, hkind, _hw = header_value(fm)
     def sym(t):
         if is_len_of(t, data):
             return "len(ROW)"
@@ -246,7 +242,12 @@ def stats_rule(ctx, fm):
 def header_rule(ctx, fb, fm):
     # batch: one write_all(header) guarded by self.header, before pool.install
     ws = [n for n in fb.nodes if n.get("k") == "mcall" and cname(n).endswith("Write::write_all")]
-    hw = [n for n in ws if contains(fb.term(n["args"][0]), lambda s: s[0] == "call" and s[1].endswith("::get_header"))]
+    def mentions_header(t):
+        if contains(t, lambda s: s[0] == "call" and s[1].endswith("::get_header")):
+            return True
+        return any(p_[0] == "term" and contains(p_[1], lambda s: s[0] == "call" and s[1].endswith("::get_header"))
+                   for p_ in string_pieces(fb, t))
+    hw = [n for n in ws if mentions_header(fb.term(n["args"][0]))]
     ok = len(hw) == 1
     if ok:
         gs = [(fb.term(c), p) for c, p in fb.guards(hw[0], with_asserts=False)]
@@ -270,18 +271,26 @@ def header_rule(ctx, fb, fm):
               "mmap path: header is not written exactly once under `self.header` outside the worker closures",
               line_of(hw[0]) if hw else fm.fn["sp"])
     # the header string itself (mutable local assigned under self.header): size bookkeeping
+    ht, hkind, _ = header_value(fm)
     asg = [n for n in fm.nodes if n.get("k") == "assign" and n["l"].get("k") == "local" and n["l"]["name"] == "header"]
-    ok2 = len(asg) == 1 and [(fm.term(c), p) for c, p in fm.guards(asg[0], with_asserts=False)] == [(SF("header"), True)]
+    if hkind == "conditional":
+        ok2 = True
+    else:
+        ok2 = hkind == "mutable" and len(asg) == 1 and \
+            [(fm.term(c), p) for c, p in fm.guards(asg[0], with_asserts=False)] == [(SF("header"), True)]
+        if ok2:
+            b = fm.binds.get(ht[2])
+            it = fm.term(b["val"][1]) if b and b["val"][0] == "node" else ("none",)
+            ok2 = it[0] == "call" and it[1].endswith("String::new")
     ctx.check("C05.H", "vectorise_mmap:header_string", ok2, "header string is empty unless self.header",
-              "the header string is not assigned exactly once under `self.header`", line_of(asg[0]) if asg else fm.fn["sp"])
+              "the header string is not (String::new() assigned once under `self.header`) nor "
+              "`if self.header { .. } else { String::new() }`", line_of(asg[0]) if asg else fm.fn["sp"])
 
 
 def row_signature(fv, root, norm_branch=True):
-    rows = [(n, ft) for n, ft in formats_in(fv, root)
-            if len(ft[1]) == 2 and ft[1][0][0] == "arg" and ft[1][1] == ("lit", "\n")]
+    rows = find_rows(fv, root)
     vals = [(n, ft) for n, ft in formats_in(fv, root) if len(ft[1]) == 1 and ft[1][0][0] == "arg"]
-    sig = {"rows": [(fmt_template(ft), show(ft[2][0][3]) if ft[2][0][0] == "call" and len(ft[2][0]) > 3 else show(ft[2][0]))
-                    for n, ft in rows]}
+    sig = {"rows": [("<values>.join(delim) + newline", show(d)) for n, j, d in rows]}
     vsig = []
     for n, ft in vals:
         gs = [(fv.term(c), p) for c, p in fv.guards(n)]
@@ -342,3 +351,21 @@ def selection_rule(ctx, fm, R="C05.S"):
                    and diverges(n["then"])]
         ctx.check(R, "vectorise_mmap:assert_norm", len(asserts) >= 1, "assert!(self.norm) present",
                   "vectorise_mmap no longer asserts `self.norm` (fixed-width rows are assumed)", fm.fn["sp"])
+
+
+
+def header_value(fm):
+    """(term, kind) of the header string of vectorise_mmap: the data of the write_at outside the workers.
+    kind = "mutable" (String::new() then assigned under self.header) or "conditional" (if self.header {..} else {new()})."""
+    ws = write_at_calls(fm)
+    hw = [w for w in ws if fm.in_closure_passed_to(w, is_spawn) is None]
+    if len(hw) != 1:
+        return None, None, None
+    t = fm.term(hw[0]["args"][0])
+    if t[0] == "local":
+        return t, "mutable", hw[0]
+    if t[0] == "if" and t[1] == SF("header"):
+        empty = t[3]
+        if empty[0] == "call" and empty[1].endswith("String::new"):
+            return t, "conditional", hw[0]
+    return t, "other", hw[0]
